@@ -50,6 +50,10 @@ type c15Input struct {
 	// writes, sends/accepts what the spec says and then ends all of its streams
 	// (c15noread.go)
 	NoRead *c15NoReadSpec `json:"noread,omitempty"`
+	// Plant: two sessions against one output directory; the first one writes
+	// the bytes in Hex, through the protocol, where the receiver keeps the
+	// resume sidecar of another item (c15planted.go)
+	Plant *c15PlantSpec `json:"plant,omitempty"`
 }
 
 type c15Result struct {
@@ -78,6 +82,10 @@ type c15Result struct {
 	Finalized           int  `json:"finalized,omitempty"`             // no-read sender: files the receiver had completed (hook recv.finalize.before) when the sender ended
 	BeginHandled        int  `json:"begin_handled,omitempty"`         // ep-recv: FileBegin records the receiver handled to the end (hook recv.begin.handled) during this case
 	PeerStalled         bool `json:"peer_stalled,omitempty"`          // no-read sender: its own writes were still blocked (the receiver had stopped reading) when it ended
+	Planted             bool `json:"planted,omitempty"`               // planted sidecar: after session 1 the bytes on disk were the peer's and the victim file had its full size
+	S2BeginWritten      bool `json:"s2_begin_written,omitempty"`      // planted sidecar: the victim's FileBegin of session 2 was written
+	S2Info              bool `json:"s2_info,omitempty"`               // planted sidecar: the receiver answered it with a resume report
+	S2Done              bool `json:"s2_done,omitempty"`               // planted sidecar: the receiver completed the victim in session 2
 }
 
 const c15AllocBase = 4 << 20 // bytes; plus 64 x input length
@@ -241,6 +249,7 @@ func c15DecoderInputs(e *Env) []c15Input {
 	mutateInto(&list, "legacy-file", "file", legacyFileBytes(), r, e.Thorough())
 	mutateInto(&list, "dumb", "dumb", dumbBytes(), r, e.Thorough())
 	mutateInto(&list, "sidecar", "sidecar", sidecarBytes(e.Work), r, e.Thorough())
+	c15SealedDecoderInputs(&list)
 	// seeded random bytes, with a plausible first byte half of the time
 	targets := []string{"control-message", "control-header", "legacy-manifest", "legacy-file", "dumb", "sidecar"}
 	types := []byte{0x10, 0x11, 0x12, 0x13, 0x14, 0x15, 0x16, 0x17, 0xFF}
@@ -320,7 +329,9 @@ func c15Child(args []string) int {
 					return 3
 				}
 			}
-			if in.NoRead != nil {
+			if in.Plant != nil {
+				res = c15RunPlanted(lp, in, work)
+			} else if in.NoRead != nil {
 				res = c15RunNoRead(lp, in, work)
 			} else {
 				res = c15RunEndpoint(lp, in, work)
@@ -1103,6 +1114,7 @@ func c15EndpointInputs(e *Env, ctrlW, ctrlR, dataW []byte) []c15Input {
 	c15FieldInputs(e, r, ctrlW, ctrlR, dataW, hdrLen, func(in c15Input) { list = append(list, in) })
 	c15Round4Inputs(e, func(in c15Input) { list = append(list, in) })
 	c15ManifestEndpointInputs(e, ctrlW, dataW, hdrLen, func(in c15Input) { list = append(list, in) })
+	c15PlantedInputs(e, func(in c15Input) { list = append(list, in) })
 	for i := range list {
 		list[i].ID = fmt.Sprintf("E%06d", i)
 	}
@@ -1222,7 +1234,7 @@ func c15Key(in c15Input, kind string) string {
 }
 
 func runC15(e *Env) {
-	e.R.Rule = "(a) decoders (control records, control header, legacy manifest and file receivers, dumb receiver header, LoadSidecar) fed from an in-memory stream in child processes: every valid record type truncated at every byte, every 1/2/4-byte field position set to {0,1,0xFFFF,0x7FFFFFFF,0x80000000,0xFFFFFFFF}, every enumeration/flag byte (record type, FileBegin hash algorithm, FileDone ok, legacy record types) swept over its values, seeded random bytes; (b) the real RecvManifestMultiStream / SendManifestMultiStream over loopback QUIC, under the library option set, the option set internal/app passes (progress/delta/stats/resume-stats/file-done callbacks on the real progress objects, ParamSource, path resolver) and the empty option set, against a script that (b1) replays a recorded valid trace with the same kinds of mutation on the control stream and the data stream at every protocol stage and then closes the connection, (b2) sets each peer-chosen enumeration/flag byte to its values in the history in which the endpoint consumes it (FileBegin.HashAlg: fresh file / chunk stored then ResumeRequest / earlier session's sidecar on disk; record type byte at each stage; FileDone.OK after FileEnd; resume report bitmap/counts/verified chunk/hash sentinel after ResumeRequest), (b3) ends one stream inside a record (FIN or reset, data stream inside a chunk payload / frame header / at a frame boundary, acknowledgement stream inside a record) and keeps the other streams open, (b4) answers the ResumeRequest for a file of 21 or 70 chunks with a resume report whose bitmap has 0 / 1 / needed-1 / needed / needed+1 / 2 x needed bytes and whose TotalChunks is the real count / 0 / 8 x the bitmap length, bits all clear or all set, with and without a chunk to verify (honest reports for the sender's other files; with and without ResumeStatsFn), (b5) never reads what the endpoint writes and then ends every stream and the connection: a sender that completes 4..40 empty or one-chunk files over 1..2 announced data streams (with and without ResumeRequests) and never reads an acknowledgement, and a receiver that stops reading after nothing / the header / K control records / K data frames while the sender has four files to send; over the repository's in-memory transport (an unread write blocks at once, so the receiver's acknowledgement queue of 8 per data stream fills) and over QUIC (the unread bytes fit the window), (b6) sends a header whose manifest is well-formed JSON in which one field of the manifest object (root, items, total_bytes, file_count, folder_count) or of a file item (id, rel_path, size, mod_time, is_dir) is absent / empty / null / of the wrong type / 0, 1, -1, min/max int64, 2^32, 2^40, 1e30 / equal to another item's value / 300 characters long (items: absent, null, [], [null], the file item twice, reversed, alone), and then goes on consistently with what the receiver decoded: the rest of the recorded exchange, or DataStreams + the FileBegin of that very item (its path, size and file key as decoded) + its chunks (fresh file), + a ResumeRequest once a chunk is stored, or with an earlier session's data file and sidecar of that item on disk; the same manifests go into the header decoder and the legacy manifest receiver; monitors: process death (attributed to the logged case), recovered panic, return after the input ended (watchdog + canary; for b3 payload and acknowledgement classes: return while the other streams are still open; for b5: return within 10 s of the moment the peer has closed everything), TotalAlloc delta <= 4 MiB + 64 x input bytes; distinct by (input bytes, option set, history)"
+	e.R.Rule = "(a) decoders (control records, control header, legacy manifest and file receivers, dumb receiver header, LoadSidecar) fed from an in-memory stream in child processes: every valid record type truncated at every byte, every 1/2/4-byte field position set to {0,1,0xFFFF,0x7FFFFFFF,0x80000000,0xFFFFFFFF}, every enumeration/flag byte (record type, FileBegin hash algorithm, FileDone ok, legacy record types) swept over its values, seeded random bytes; (b) the real RecvManifestMultiStream / SendManifestMultiStream over loopback QUIC, under the library option set, the option set internal/app passes (progress/delta/stats/resume-stats/file-done callbacks on the real progress objects, ParamSource, path resolver) and the empty option set, against a script that (b1) replays a recorded valid trace with the same kinds of mutation on the control stream and the data stream at every protocol stage and then closes the connection, (b2) sets each peer-chosen enumeration/flag byte to its values in the history in which the endpoint consumes it (FileBegin.HashAlg: fresh file / chunk stored then ResumeRequest / earlier session's sidecar on disk; record type byte at each stage; FileDone.OK after FileEnd; resume report bitmap/counts/verified chunk/hash sentinel after ResumeRequest), (b3) ends one stream inside a record (FIN or reset, data stream inside a chunk payload / frame header / at a frame boundary, acknowledgement stream inside a record) and keeps the other streams open, (b4) answers the ResumeRequest for a file of 21 or 70 chunks with a resume report whose bitmap has 0 / 1 / needed-1 / needed / needed+1 / 2 x needed bytes and whose TotalChunks is the real count / 0 / 8 x the bitmap length, bits all clear or all set, with and without a chunk to verify (honest reports for the sender's other files; with and without ResumeStatsFn), (b5) never reads what the endpoint writes and then ends every stream and the connection: a sender that completes 4..40 empty or one-chunk files over 1..2 announced data streams (with and without ResumeRequests) and never reads an acknowledgement, and a receiver that stops reading after nothing / the header / K control records / K data frames while the sender has four files to send; over the repository's in-memory transport (an unread write blocks at once, so the receiver's acknowledgement queue of 8 per data stream fills) and over QUIC (the unread bytes fit the window), (b6) sends a header whose manifest is well-formed JSON in which one field of the manifest object (root, items, total_bytes, file_count, folder_count) or of a file item (id, rel_path, size, mod_time, is_dir) is absent / empty / null / of the wrong type / 0, 1, -1, min/max int64, 2^32, 2^40, 1e30 / equal to another item's value / 300 characters long (items: absent, null, [], [null], the file item twice, reversed, alone), and then goes on consistently with what the receiver decoded: the rest of the recorded exchange, or DataStreams + the FileBegin of that very item (its path, size and file key as decoded) + its chunks (fresh file), + a ResumeRequest once a chunk is stored, or with an earlier session's data file and sidecar of that item on disk; the same manifests go into the header decoder and the legacy manifest receiver, (b7) authors, through the protocol, the resume state the receiver decodes later: session 1 announces a victim item (the receiver pre-sizes it and writes its sidecar), transfers a second manifest item whose path is the victim's sidecar inside the resume directory (or the fallback sidecar below the root directory, with undecodable bytes in the primary one) and whose content is a well-formed sidecar with a correct checksum in which one field (version, chunk size, file size, chunk count with a bitmap of the matching length clear/set, file id and its length, bitmap length, bitmap bits) holds a boundary value, and ends; session 2 into the same output directory announces the victim again, sends its chunks, a ResumeRequest and FileEnd and ends (in-memory transport, library and application option sets); the same sealed sidecars go into LoadSidecar; monitors: process death (attributed to the logged case), recovered panic, return after the input ended (watchdog + canary; for b3 payload and acknowledgement classes: return while the other streams are still open; for b5: return within 10 s of the moment the peer has closed everything), TotalAlloc delta <= 4 MiB + 64 x input bytes; distinct by (input bytes, option set, history)"
 	dec := c15DecoderInputs(e)
 	ctrlW, ctrlR, dataW, ok := c15Record(e)
 	if !ok {
@@ -1312,6 +1324,7 @@ func runC15(e *Env) {
 	holdOut := map[string]map[string]int{}  // stream-end class -> outcome counts
 	noReadOut := map[string]map[string]int{} // peer-never-reads: target:transport[option set] -> outcome counts
 	mfOut := map[string]map[string]int{}     // manifest-field classes: field@history[option set] / field[decoder] -> outcome counts
+	plantOut := map[string]map[string]int{}  // planted-sidecar classes: field@history[option set] -> what was reached
 	bump := func(m map[string]map[string]int, k, what string) {
 		if m[k] == nil {
 			m[k] = map[string]int{}
@@ -1330,6 +1343,7 @@ func runC15(e *Env) {
 		e.R.Distinct(fmt.Sprintf("%s[%s%s%s%s]:%x:%s", in.Target, in.Opts, in.Hold, in.Pre, in.Tree, vk.HashStr(in.Hex+"|"+in.Data+"|"+in.Hex2), in.Class))
 		perTarget[in.Target]++
 		c15ManifestTally(mfOut, in, res)
+		c15PlantedTally(plantOut, in, res, false)
 		if strings.HasPrefix(in.Target, "ep-") {
 			perOpts[in.Target+"["+optName(in.Opts)+"]"]++
 			if i := strings.Index(in.Class, "field:"); i >= 0 && (strings.Contains(in.Class, "@")) {
@@ -1472,6 +1486,7 @@ func runC15(e *Env) {
 			continue
 		}
 		e.R.Eval()
+		c15PlantedTally(plantOut, in, c15Result{}, true)
 		outcomes["process-died"]++
 		e.R.Violate(c15Key(in, "crash"), fmt.Sprintf("the process died while %s handled input class %s", in.Target, in.Class), in, map[string]any{"child_output": tail})
 	}
@@ -1490,8 +1505,10 @@ func runC15(e *Env) {
 	e.R.SetExtra("stream_end_outcomes", holdOut)
 	e.R.SetExtra("peer_never_reads_outcomes", noReadOut)
 	e.R.SetExtra("manifest_field_outcomes", mfOut)
+	e.R.SetExtra("planted_sidecar_outcomes", plantOut)
 	if !filtered {
 		c15ManifestRequire(e, mfOut)
+		c15PlantedRequire(e, plantOut)
 		for _, k := range []string{"ep-recv[lib]", "ep-recv[app]", "ep-send[lib]", "ep-send[app]", "ep-recv[app-mc]", "ep-send[app-mc]"} {
 			e.R.Require(perOpts[k] >= 40, fmt.Sprintf("only %d endpoint results for %s", perOpts[k], k))
 		}
